@@ -209,7 +209,8 @@ func hGenRequirement(name string, shapes, nest, malformed int) *SubmissionRequir
 	return r
 }
 
-// hAllInGroupA: every descriptor is a member of group A only (no choice).
+// hAllInGroupA: the small family of definitions (H12e forged mode): every descriptor is a member of group A
+// only (no choice), no format designations.
 var hAllInGroupA bool
 
 func hHasGroup(d *InputDescriptor, g string) bool {
@@ -228,7 +229,7 @@ func hGenDefinition(nd int, withReqs bool, reqs, shapes, nest, malformed int) Pr
 	// 1: the definition and descriptor d0 may designate formats - without submission requirements only
 	// (matchConstraints, where formats are evaluated, is the same code in both modes)
 	formats := vParam("formats", 1)
-	if withReqs {
+	if withReqs || hAllInGroupA {
 		formats = 0
 	}
 	if formats > 0 && nd > 0 {
